@@ -187,6 +187,62 @@ def _pushes(f, o, region, kinds=("String::push", "Vec::push", "String::push_str"
     return out
 
 
+def _unescape_table_by_cases(prog, f):
+    """fallback for forms where the letter table lives behind an Option (`control_character(ch2) -> Option<char>`, inlined): the function is followed
+    for every candidate letter with case folding and the pushed characters are read off the path"""
+    from ..casefold import cases, const_int
+    sws = _char_switch(f)
+    letters = sorted({int(v) for sb_, t_ in sws for v, _ in t_["targets"]})
+    intro_sw = [(sb_, t_) for sb_, t_ in sws if [int(v) for v, _ in t_["targets"]] == [92]]
+    # the local holding the escaped letter: the discriminant of the switch with the most arms
+    sb, t = max(sws, key=lambda x: len(x[1]["targets"]))
+    ch2 = (t["discr"].get("copy") or t["discr"].get("move"))["l"]
+    # the letter may have been handed to an inlined helper: all locals it was copied from hold the same character
+    same = {ch2}
+    for _ in range(4):
+        for l_ in list(same):
+            for d_ in f.defs.get(l_, []):
+                if d_[2] == "assign" and d_[3]["k"] == "use":
+                    src_ = d_[3]["op"].get("copy") or d_[3]["op"].get("move")
+                    if src_ is not None and not src_["p"]:
+                        same.add(src_["l"])
+    pushes = {bb: tt for bb, tt in f.calls() if method_name(callee_name(tt, resolved=False) or "") == "String::push"}
+    table, other = {}, None
+    for v in letters + [ord("q")]:
+        def valmap(pl, v=v):
+            return v if (not pl["p"] and pl["l"] in same) else None
+        got = set()
+        back = set(f.back_edges())
+        for r in cases(f, valmap, start=sb):
+            seq = []
+            known = r["known"]
+            path = r["path"]
+            for i_, bb in enumerate(path):
+                if i_ > 0 and (path[i_ - 1], bb) in back:
+                    break
+                if bb in pushes:
+                    a = pushes[bb]["args"][1]
+                    c = const_int(a)
+                    if c is None:
+                        pl = a.get("copy") or a.get("move")
+                        c = known.get(pl["l"]) if pl is not None and not pl["p"] else None
+                        if c is None and pl is not None and not pl["p"] and pl["l"] in same:
+                            c = v
+                    seq.append(c)
+            if seq:
+                got.add(tuple(seq))
+        if len(got) != 1:
+            raise AnchorError("unescape_tabs: letter %r undecided by case folding (%s)" % (chr(v), sorted(got)[:3]))
+        seq = got.pop()
+        if v == ord("q"):
+            other = [("<letter>" if c == v else (chr(c) if c is not None else "?")) for c in seq]
+        elif len(seq) == 1 and seq[0] is not None:
+            table[chr(v)] = chr(seq[0])
+        elif [("<letter>" if c == v else (chr(c) if c is not None else "?")) for c in seq] != ["\\", "<letter>"]:
+            raise AnchorError("unescape_tabs: letter %r pushes %s" % (chr(v), seq))
+    return table, other
+
+
 def unescape_table(prog):
     """({letter: pushed char}, otherwise-pushes) of unescape_tabs"""
     f = prog.fn("unescape_tabs")
@@ -198,20 +254,26 @@ def unescape_table(prog):
     sb, t = sws[0]
     arms = {int(v): tg for v, tg in t["targets"]}
     table = {}
+    direct = True
     for v, tg in arms.items():
         reg = _region(f, tg, [x for vv, x in arms.items() if vv != v] + [t["otherwise"]], back)
         ps = _pushes(f, o, reg)
         if len(ps) != 1 or ps[0][2].kind != "const" or ps[0][2].a.as_char() is None:
-            raise AnchorError("unescape_tabs: arm %r does not push exactly one literal char" % chr(v))
+            direct = False
+            break
         table[chr(v)] = ps[0][2].a.as_char()
-    reg = _region(f, t["otherwise"], list(arms.values()), back)
-    other = []
-    scrut = t["discr"].get("copy") or t["discr"].get("move")
-    for bb, tt, n in _pushes(f, o, reg):
-        if n.kind == "const":
-            other.append(n.a.as_char())
-        else:
-            other.append("<letter>" if _is_place(f, tt["args"][1], scrut) else n.show())
+    if direct:
+        reg = _region(f, t["otherwise"], list(arms.values()), back)
+        other = []
+        scrut = t["discr"].get("copy") or t["discr"].get("move")
+        for bb, tt, n in _pushes(f, o, reg):
+            if n.kind == "const":
+                other.append(n.a.as_char())
+            else:
+                other.append("<letter>" if _is_place(f, tt["args"][1], scrut) else n.show())
+    else:
+        # the table does not push directly (e.g. `control_character(ch2) -> Option<char>` + one push): decided by case folding
+        table, other = _unescape_table_by_cases(prog, f)
     # the introducer test in front of the switch: `ch == INTRO` (switch on its true edge) or `ch != INTRO` (on its false edge)
     intro = None
     for bi, b in enumerate(f.blocks):
@@ -281,6 +343,11 @@ def resolve_table(prog):
             m = method_name(callee_name(tt, resolved=False) or "")
             if m.endswith("from_str_radix"):
                 radix = _const_int(tt["args"][1])
+                if radix is None:
+                    # the radix is a parameter of a helper that was inlined here: its value is the constant assigned at this call site
+                    rn = peel(o.operand(tt["args"][1]))
+                    if rn.kind == "const":
+                        radix = rn.a.as_int()
             if m == "Iterator::next" and "Chars" in (tt.get("self_ty") or tt.get("callee_args") or ""):
                 nexts += 1
         if radix is not None:
